@@ -28,6 +28,8 @@ ASSUMPTIONS = [
     "position angle antisymmetry is checked in the form that is an identity "
     "on the sphere (mirroring the right-ascension difference negates the "
     "angle)",
+    "every other conversion call re-uses long-lived Angle objects re-set in "
+    "place with set(), the others use fresh objects",
     "vector formulas of vpm/oracles/sphere.py (self-checked at start-up)",
 ]
 EXHAUSTIVE = {"quick": False, "thorough": False}
@@ -62,7 +64,7 @@ REQUIRED_CLAUSES = ["roundtrip.ecliptical", "roundtrip.galactic",
                     "matches-rotation.horizontal", "galactic.anchors",
                     "separation==vector", "separation.symmetric",
                     "position-angle==vector", "position-angle.mirror",
-                    "circle_diameter.bounds"]
+                    "circle_diameter.bounds", "alias-independent"]
 
 
 def shards(tier, seed):
@@ -113,19 +115,37 @@ def near_pole(*lats):
 
 
 # ------------------------------------------------------------- conversions
+_POOL = {"n": 0}
+
+
 def conv(name, lon, lat, par):
     """Run one library conversion; returns (lon', lat') floats."""
     from pymeeus import Coordinates as C
     from pymeeus.Angle import Angle
-    a, b = Angle(lon), Angle(lat)
+    # every other call re-uses three long-lived Angle objects that are
+    # re-set in place (a caller may legitimately keep and update its
+    # objects): results must not depend on the objects' history
+    _POOL["n"] += 1
+    if _POOL["n"] % 2:
+        if "a" not in _POOL:
+            _POOL["a"], _POOL["b"], _POOL["p"] = Angle(1.0), Angle(2.0), \
+                Angle(3.0)
+        a, b, pa = _POOL["a"], _POOL["b"], _POOL["p"]
+        a.set(lon)
+        b.set(lat)
+        if par is not None:
+            pa.set(par)
+    else:
+        a, b = Angle(lon), Angle(lat)
+        pa = Angle(par) if par is not None else None
     if name == "eq2ecl":
-        r = C.equatorial2ecliptical(a, b, Angle(par))
+        r = C.equatorial2ecliptical(a, b, pa)
     elif name == "ecl2eq":
-        r = C.ecliptical2equatorial(a, b, Angle(par))
+        r = C.ecliptical2equatorial(a, b, pa)
     elif name == "eq2hor":
-        r = C.equatorial2horizontal(a, b, Angle(par))
+        r = C.equatorial2horizontal(a, b, pa)
     elif name == "hor2eq":
-        r = C.horizontal2equatorial(a, b, Angle(par))
+        r = C.horizontal2equatorial(a, b, pa)
     elif name == "eq2gal":
         r = C.equatorial2galactic(a, b)
     else:
@@ -349,6 +369,47 @@ def case_circle(mon, lon, lat, offs):
               dict(case, diameter=d, max_separation=mx))
 
 
+def case_alias(mon, name, v, par):
+    """The same Angle object passed for two (or three) parameters gives what
+    separate equal objects give, and is left unchanged."""
+    from pymeeus import Coordinates as C
+    from pymeeus.Angle import Angle
+    mon.evals += 1
+    fn = {"eq2ecl": C.equatorial2ecliptical, "ecl2eq": C.ecliptical2equatorial,
+          "eq2hor": C.equatorial2horizontal,
+          "hor2eq": C.horizontal2equatorial, "eq2gal": C.equatorial2galactic,
+          "gal2eq": C.galactic2equatorial, "sep": C.angular_separation,
+          "pa": C.relative_position_angle}[name]
+    a = Angle(v)
+    if name in ("eq2gal", "gal2eq"):
+        shared = (a, a)
+        fresh = (Angle(v), Angle(v))
+    elif name in ("sep", "pa"):
+        b = Angle(par)
+        shared = (a, a, b, b)
+        fresh = (Angle(v), Angle(v), Angle(par), Angle(par))
+    else:
+        shared = (a, a, a)
+        fresh = (Angle(v), Angle(v), Angle(v))
+    mon.cls("shared-argument-object", ("alias", name, v, par), [name, v])
+    try:
+        r1 = fn(*shared)
+        r2 = fn(*fresh)
+    except Exception as ex:
+        try:
+            fn(*fresh)
+        except Exception:
+            return          # refused either way
+        mon.dev("alias-independent", {"fn": name, "value": v,
+                                      "raised": repr(ex)})
+        return
+    v1 = [x() for x in r1] if isinstance(r1, tuple) else [r1()]
+    v2 = [x() for x in r2] if isinstance(r2, tuple) else [r2()]
+    mon.check("alias-independent", v1 == v2 and a() == Angle(v)(),
+              {"fn": name, "value": v, "shared": v1, "separate": v2,
+               "argument_after": a()})
+
+
 def case_galactic_anchors(mon):
     mon.evals += 4
     l, b, _ = conv("eq2gal", 192.25, 27.4, None)
@@ -367,7 +428,8 @@ def case_galactic_anchors(mon):
     mon.cls("galactic-anchor", ("gal-anchors",))
 
 
-CASES = {"roundtrip": case_roundtrip, "isometry": case_isometry,
+CASES = {"alias": case_alias, "roundtrip": case_roundtrip,
+         "isometry": case_isometry,
          "separation": case_separation, "circle": case_circle,
          "galactic_anchors": case_galactic_anchors}
 
@@ -422,6 +484,13 @@ def run(mon, spec):
         p = [lon1, lat1, lon2, lat2]
         mon.begin("separation", p)
         case_separation(mon, *p)
+        if rng.random() < 0.1:
+            p = [rng.choice(("eq2ecl", "ecl2eq", "eq2hor", "hor2eq", "eq2gal",
+                             "gal2eq", "sep", "pa")),
+                 rng.choice((rng.uniform(-89, 89), -1e-15, -20.0, 0.0)),
+                 rng.uniform(-80, 80)]
+            mon.begin("alias", p)
+            case_alias(mon, *p)
         if rng.random() < 0.25:
             k = rng.random()
             if k < 0.4:      # obtuse / nearly collinear
